@@ -29,6 +29,8 @@ META = {
                  'agent groups': '0..2 of size 0,1,2', 'hooks': 'pre/post model, pre/post per system, pre/post per group',
                  'module key': 'explicit module name, or omitted (resolution through __main__)',
                  'stale agent_index': 'agent params that already contain an agent_index entry',
+                 'variants': 'model already complete while decoding; hook function re-defined between two decodes; a hook '
+                             'at every lifecycle point decodes another file with the same decoder instance',
                  'repetition': 'decode(F), decode(other file), decode(F) again in one process'},
     'bounds': {'quick': 'all shapes with systems+groups <= 2 in full; shape (2,2) with 5 hook patterns',
                'thorough': 'shapes (2,1),(1,2),(2,2) with every hook subset as well'},
@@ -47,11 +49,16 @@ def _state(model):
     return [id(model), len(model.systems.systems), len(model.environment)]
 
 
+NESTED = {'decoder': None, 'path': None}
+
+
 class FxModel(Core.Model, IDecodable):
     @staticmethod
     def decode(params):
         m = FxModel()
         LOG.append(['model', dict(params), id(m)])
+        if params.get('complete'):
+            m.complete()          # e.g. a description that restores a finished run
         return m
 
 
@@ -77,7 +84,21 @@ def fx_hook(params):
     LOG.append(['hook', params['name'], _state(params.get('model')) if 'model' in params else None])
 
 
+def fx_hook_v2(params):
+    LOG.append(['hook', params['name'] + '#v2', _state(params.get('model')) if 'model' in params else None])
+
+
+def fx_nested(params):
+    """A hook that loads a sub-model from another file with the SAME decoder instance, then behaves like fx_hook."""
+    keep = len(LOG)
+    NESTED['decoder'].decode(NESTED['path'])
+    del LOG[keep:]
+    fx_hook(params)
+
+
 # ---------------------------------------------------------------------------------------------------------
+
+_FX_HOOK_V1 = fx_hook
 
 PRIOS = {1: [(0,), (3,), (-1,)], 2: [(0, 0), (-1, 3), (3, 0), (0, -1)], 0: [()]}
 HOOK_PATTERNS = ['all', 'none', 'pre', 'post', 'alt']
@@ -91,11 +112,16 @@ def build_desc(case):
             d['module'] = MOD
         return d
 
+    nested_at = case.get('nested_at')
+
     def hook(name):
-        return ent({'func': 'fx_hook', 'params': {'name': name}})
+        return ent({'func': 'fx_nested' if name == nested_at else 'fx_hook', 'params': {'name': name}})
 
     hooks = case['hooks']       # dict name -> bool
-    desc = {'model': ent({'name': 'FxModel', 'params': {'p': 1}}), 'systems': [], 'agents': []}
+    mparams = {'p': 1}
+    if case.get('complete_model'):
+        mparams['complete'] = True
+    desc = {'model': ent({'name': 'FxModel', 'params': mparams}), 'systems': [], 'agents': []}
     if hooks.get('pre_model'):
         desc['pre_model_decode'] = hook('pre_model')
     if hooks.get('post_model'):
@@ -120,13 +146,22 @@ def build_desc(case):
     return desc
 
 
-def expected_log(case, mid):
+def expected_log(case, mid, v2=False):
     """The documented lifecycle, with the model state (identity, #systems, #agents) at each point."""
+    out = _expected_log(case, mid)
+    if v2:
+        for e in out:
+            if e[0] == 'hook':
+                e[1] += '#v2'
+    return out
+
+
+def _expected_log(case, mid):
     hooks = case['hooks']
     out = []
     if hooks.get('pre_model'):
         out.append(['hook', 'pre_model', None])
-    out.append(['model', {'p': 1}, mid])
+    out.append(['model', {'p': 1, 'complete': True} if case.get('complete_model') else {'p': 1}, mid])
     for i, prio in enumerate(case['prios']):
         if hooks.get(f'pre_s{i}'):
             out.append(['hook', f'pre_s{i}', [mid, i, 0]])
@@ -151,8 +186,10 @@ def expected_log(case, mid):
 def decode_case(case):
     reset_library()
     main = sys.modules['__main__']
-    for name in ('FxModel', 'FxSystem', 'FxAgent', 'fx_hook'):
-        setattr(main, name, globals()[name])     # resolution target when the description omits "module"
+    me = sys.modules[MOD]
+    me.fx_hook = _FX_HOOK_V1
+    for name in ('FxModel', 'FxSystem', 'FxAgent', 'fx_hook', 'fx_nested'):
+        setattr(main, name, getattr(me, name))     # resolution target when the description omits "module"
     tmp = tempfile.mkdtemp(prefix='c18-')
     try:
         f1 = os.path.join(tmp, 'desc.json')
@@ -163,9 +200,14 @@ def decode_case(case):
         with open(f0, 'w') as f:
             json.dump(build_desc(other), f)
         dec = JsonDecoder()
+        NESTED['decoder'], NESTED['path'] = dec, f0
         logs, models = [], []
-        for path, c in ((f1, case), (f0, other), (f1, case)):
+        for nth, (path, c) in enumerate(((f1, case), (f0, other), (f1, case))):
             del LOG[:]
+            v2 = bool(case.get('rebind')) and nth == 2
+            if v2:      # the hook function is re-defined between two decodes (same module object, same name)
+                me.fx_hook = fx_hook_v2
+                main.fx_hook = fx_hook_v2
             m = dec.decode(path)
             log = [list(e) for e in LOG]
             mids = [e[2] for e in log if e[0] == 'model']
@@ -174,14 +216,14 @@ def decode_case(case):
                                 observed=len(mids))
             if id(m) != mids[0] or not isinstance(m, FxModel):
                 raise Violation('decode() did not return the model built by the model class\'s decode')
-            exp = expected_log(c, id(m))
+            exp = expected_log(c, id(m), v2)
             if log != exp:
                 raise Violation(f'lifecycle event log differs from the documented order ({_where(log, exp)})',
                                 expected=_strip(exp), observed=_strip(log))
             check_model(m, c)
             logs.append(_strip(log))
             models.append(m)
-        if logs[0] != logs[2]:
+        if logs[0] != logs[2] and not case.get('rebind'):
             raise Violation('decoding the same file a second time gave a different lifecycle', expected=logs[0],
                             observed=logs[2])
         if models[0] is models[2] or models[0] is models[1]:
@@ -192,11 +234,14 @@ def decode_case(case):
         models[2].execute()
         ran = [e[1] for e in LOG if e[0] == 'run']
         order = sorted(range(len(case['prios'])), key=lambda i: (-case['prios'][i], i))
+        if case.get('complete_model'):
+            order = []
         if ran != [f's{i}' for i in order]:
             raise Violation('decoded systems do not run in priority / listing order', expected=[f's{i}' for i in order],
                             observed=ran)
         return json.dumps(logs[0])
     finally:
+        me.fx_hook = _FX_HOOK_V1
         shutil.rmtree(tmp, ignore_errors=True)
 
 
@@ -276,6 +321,17 @@ def cases(tier):
             for sizes in itertools.product((1, 2), repeat=ng):
                 out.append({'leg': 'decode', 'prios': list(PRIOS[ns][0]), 'sizes': list(sizes),
                             'hooks': {n: True for n in hook_names(ns, ng)}, 'module_key': True, 'stale_index': True})
+    # variants on every shape with all hooks present: the model is already complete while it is decoded; the hook
+    # function is re-defined between two decodes; a hook decodes another file with the same decoder (nested load)
+    for ns in range(3):
+        for ng in range(3):
+            full = {n: True for n in hook_names(ns, ng)}
+            base = {'leg': 'decode', 'prios': list(PRIOS[ns][-1]), 'sizes': [2, 1][:ng], 'hooks': full, 'module_key': True}
+            out.append(dict(base, complete_model=True))
+            out.append(dict(base, rebind=True))
+            out.append(dict(base, rebind=True, module_key=False))
+            for at in hook_names(ns, ng):
+                out.append(dict(base, nested_at=at))
     return out
 
 
